@@ -337,6 +337,19 @@ pub fn mutations_since(from: usize) -> usize {
     })
 }
 
+/// Bytes handed to write calls in log[from..]
+pub fn bytes_written_since(from: usize) -> u64 {
+    with(|s| {
+        s.log[from.min(s.log.len())..]
+            .iter()
+            .map(|e| match e {
+                Ev::Write { data, .. } => data.len() as u64,
+                _ => 0,
+            })
+            .sum()
+    })
+}
+
 pub fn arm(plan: Vec<Fault>) {
     with(|s| {
         s.calls = 0;
